@@ -88,7 +88,18 @@ where
                 None => Err(OperationError::BacklinkMissing),
             }
         } else {
-            Ok(())
+            // A prune-flagged operation may skip over missing (pruned) operations, but it can
+            // never move the log backwards: once a later operation of this log is known, an older
+            // prune point is outdated and would bring an already pruned prefix back.
+            match past_header {
+                Some(past_header) if header.seq_num <= past_header.seq_num => {
+                    Err(OperationError::SeqNumNonIncremental(
+                        past_header.seq_num.saturating_add(1),
+                        header.seq_num,
+                    ))
+                }
+                _ => Ok(()),
+            }
         }
     } else {
         // Operation is at the beginning of log but we've already progressed and assume a strictly
